@@ -72,6 +72,9 @@ func (g *worldGen) leaf(name string) interface{} {
 		if g.pct(10) {
 			return "NOT_A_VALUE"
 		}
+		if g.pct(g.k.WrongKind) {
+			return []interface{}{7} // unhashable: the enum's value lookup panics while serialising this item
+		}
 		return ev.Internal
 	}
 	if td != nil && td.Kind == "SCALAR" && td.Builtin == "" {
@@ -115,14 +118,26 @@ func (g *worldGen) leaf(name string) interface{} {
 }
 
 func (g *worldGen) wrapThunk(v interface{}) interface{} {
-	if g.pct(g.k.BadThunk) {
+	bad := func() interface{} {
 		if g.r.Chance(1, 2) {
 			return M{"$go": "badfunc"}
 		}
 		return M{"$thunk": M{"err": true}}
 	}
+	if g.pct(g.k.BadThunk) {
+		return bad()
+	}
 	if g.pct(g.k.Thunk) {
-		return M{"$thunk": M{"v": v}}
+		// a deferred value may itself yield a deferred value (up to three levels; the innermost may be a failing thunk or a
+		// func of another signature when the knobs allow bad thunks)
+		if g.k.BadThunk > 0 && g.r.Chance(1, 12) {
+			v = bad()
+		}
+		out := interface{}(M{"$thunk": M{"v": v}})
+		for d := 0; d < 2 && g.r.Chance(1, 4); d++ {
+			out = M{"$thunk": M{"v": out}}
+		}
+		return out
 	}
 	return v
 }
